@@ -19,6 +19,8 @@ def _copy_val(v):
         return c
     if isinstance(v, SOpt):
         return SOpt(v.present, _copy_val(v.value))
+    if type(v).__name__ in ("SMap", "SColl"):
+        return v.copy()
     return v
 
 
@@ -45,6 +47,12 @@ def snapshot(roots):
             walk(v.result, depth + 1)
         elif isinstance(v, SOpt):
             walk(v.value, depth + 1)
+        elif type(v).__name__ == "SMap":
+            for s_ in v.slots:
+                walk(s_.value, depth + 1)
+        elif type(v).__name__ == "SColl":
+            for _p, x in v.members:
+                walk(x, depth + 1)
         elif isinstance(v, (list, tuple, set, frozenset)):
             for x in v:
                 walk(x, depth + 1)
@@ -55,3 +63,54 @@ def snapshot(roots):
     for r in roots:
         walk(r)
     return view
+
+
+def clone_graph(bindings):
+    """Structural copy of the entry state (sharing preserved) for later concretisation."""
+    memo = {}
+
+    def cl(v, depth=0):
+        if depth > 14:
+            return v
+        if isinstance(v, SObj):
+            if v.oid in memo:
+                return memo[v.oid]
+            c = SObj(v.cls, {}, frozen=v.frozen, tag=v.tag)
+            c.oid = v.oid
+            memo[v.oid] = c
+            c.fields = {k: cl(x, depth + 1) for k, x in v.fields.items()}
+            return c
+        if isinstance(v, SFuture):
+            if v.oid in memo:
+                return memo[v.oid]
+            c = SFuture(v.state, None, v.exc, dict(v.ghost))
+            c.oid = v.oid
+            memo[v.oid] = c
+            c.result = cl(v.result, depth + 1)
+            return c
+        if isinstance(v, SOpt):
+            return SOpt(v.present, cl(v.value, depth + 1))
+        if isinstance(v, SBytes) and v.mutable:
+            return SBytes(v.t, True)
+        if isinstance(v, SDict):
+            return _copy_val(v)
+        if type(v).__name__ == "SMap":
+            c = v.copy()
+            for s_ in c.slots:
+                s_.value = cl(s_.value, depth + 1)
+            c.live = v
+            return c
+        if type(v).__name__ == "SColl":
+            c = v.copy()
+            c.members = [[p_, cl(x, depth + 1)] for p_, x in c.members]
+            c.live = v
+            return c
+        if isinstance(v, list):
+            return [cl(x, depth + 1) for x in v]
+        if isinstance(v, tuple):
+            return tuple(cl(x, depth + 1) for x in v)
+        if isinstance(v, dict):
+            return {k: cl(x, depth + 1) for k, x in v.items()}
+        return v
+
+    return {k: cl(v) for k, v in bindings.items()}
